@@ -8,7 +8,8 @@ INS_CLASSES = ["valid", "wrong-post", "wrong-pre", "wrong-path", "wrong-hash", "
                "ids+1", "ids-1", "proofs+1", "proofs-1", "row+1", "row-1", "empty"]
 DEL_CLASSES = ["valid", "wrong-post", "wrong-pre", "wrong-path", "wrong-leaf", "wrong-hash", "forged-last", "idx-too-high", "idx-shifted", "swapped-roots",
                "ids+1", "ids-1", "idxs+1", "idxs-1", "proofs+1", "proofs-1", "row+1", "row-1", "empty"]
-CANDS = ["own", "own+r", "own+2r", "own+4r", "own+1", "own-1", "other-batch", "random", "zero"]
+CONG = ("own", "own+r", "own+2r", "own+4r", "own-r", "own-7r", "own+r*2^70")
+CANDS = list(CONG) + ["neg-own", "neg-own-r", "own+1", "own-1", "other-batch", "random", "zero"]
 
 
 def module(systems):
@@ -41,7 +42,7 @@ def run(ctx):
         steps = [dict(op="prove", sys=s["id"], cls="valid", batch=1, ok=True, token=1)]
         for v in systems:
             for c in CANDS:
-                steps.append(dict(op="verify", sys=v["id"], token=1, cand=c, accept=(v["id"] == s["id"] and c in ("own", "own+r", "own+2r", "own+4r"))))
+                steps.append(dict(op="verify", sys=v["id"], token=1, cand=c, accept=(v["id"] == s["id"] and c in CONG)))
         beh.append(steps)
         inv = [c for c in classes if c != "valid"]
         for i in range(0, len(inv), 5):
